@@ -3,7 +3,7 @@ parse results."""
 import os, struct, subprocess, re, tempfile, hashlib, shutil
 from . import build, core
 
-F_DIRECT, F_MONITOR, F_NOSTORE = 1, 2, 4
+F_DIRECT, F_MONITOR, F_NOSTORE, F_ONEREAD = 1, 2, 4, 8
 NOATTACH = 0xffffffff
 
 
